@@ -172,6 +172,9 @@ func (s *Service) proposeBlock(ctx context.Context,
 	}
 
 	if signedProposal.Blinded {
+		if auctionResults == nil {
+			return errors.New("blinded proposal without auction results; no relays to unblind the block")
+		}
 		// Select the relays to unblind the proposal.
 		providers := make([]builderclient.UnblindedProposalProvider, 0, len(auctionResults.AllProviders))
 		unblindingCandidates := auctionResults.Providers
